@@ -89,6 +89,20 @@ CHECKS["C06"] = (
     "DESIGN.md section 3, C06",
 )
 
+CHECKS["C09"] = (
+    "ENUM",
+    "model_checking",
+    "bounded exhaustive enumeration of formula ASTs (incl. raw n-ary nodes) x rewrites x closed trees; expected verdict from the reference semantics of the composite's structure",
+    "Closed base formulas (schema-stratified core of the typed universe) are combined into twelve composite shapes - through the "
+    "simplifying combinators and as raw 2-3-ary ConjunctiveFormula/DisjunctiveFormula/NegatedFormula objects nested to depth 2 - plus "
+    "quantifiers over raw n-ary bodies. Every composite goes through ten rewrites (identity, negation, NNF, NNF of the negation, DNF after "
+    "NNF deep/shallow, DNF directly, bound-variable renaming, & and | with another formula) and is evaluated on every closed tree. The "
+    "expected verdict is computed by the reference semantics from the composite's own structure, so a rewrite that is consistently wrong "
+    "on both sides is still caught. Any exception in a rewrite is a violation.",
+    "Reference semantics as for C03; base formulas use one type per variable name.",
+    "DESIGN.md section 3, C09",
+)
+
 NOT_YET = "check not built yet in this round (planned in DESIGN.md section 3)"
 
 
